@@ -10,8 +10,8 @@ import signal
 from .values import Unsupported
 
 DEFAULT_MEM_GB = 3
-DEFAULT_TIME_S = {"quick": 1500, "thorough": 10800}
-DEFAULT_ITEM_TIME_S = {"quick": 600, "thorough": 3600}
+DEFAULT_TIME_S = {"quick": 3600, "thorough": 14400}
+DEFAULT_ITEM_TIME_S = {"quick": 1800, "thorough": 7200}
 TIER = ["quick"]
 
 
